@@ -59,6 +59,253 @@ impl Steps {
     }
 }
 
+
+/// Everything observed during a deck history (times are *playing* time: it stands still while stopped)
+pub struct Observed {
+    pub pulses: Vec<u64>,
+    pub pulse_end: Vec<u64>,
+    pub resets: Vec<(u64, &'static str)>,
+    pub disc: Vec<usize>,
+    pub cause_log: Vec<(u64, &'static str)>,
+    pub play_time: u64,
+    pub last_edge: u64,
+    pub playing: bool,
+    /// observation tolerance of pulse lengths (early, late) in T-states
+    pub tol: (u64, u64),
+}
+
+/// The oracle over a recorded deck history: the blocks decoded from the concatenated playing
+/// intervals are the tape's blocks, each once and in order, restarting after every rewind / end of tape.
+pub fn evaluate(o: &Observed, blocks: &[Vec<u8>], ctx: &mut RunCtx) -> Result<(), Fail> {
+    let (pulses, pulse_end, resets, disc, cause_log, play_time, last_edge, playing) = (&o.pulses, &o.pulse_end, &o.resets, &o.disc, &o.cause_log, o.play_time, o.last_edge, o.playing);
+    // ---- evaluate the decoded blocks
+    let dec = tape::decode_tol(pulses, o.tol.0, o.tol.1);
+    if std::env::var("VERIF_DEBUG").is_ok() {
+        for d in &dec {
+            eprintln!("decoded: {} bytes pilot={} first={} endp={} end={:?} bad={} pause={}", d.bytes.len(), d.pilot, d.first_pulse, d.end_pulse, d.end, d.bad_len, d.pause_len);
+        }
+        eprintln!("resets: {:?} pulses={} play_time={}", resets, pulses.len(), play_time);
+    }
+    let pulse_start = |i: usize| -> u64 {
+        if i == 0 {
+            0
+        } else {
+            pulse_end[i - 1]
+        }
+    };
+    let mut expect = 0usize;
+    let mut ri = 0usize;
+    let cause_for = |t0: u64, t1: u64| -> &'static str {
+        // most recent logged pattern before the end of the block
+        cause_log.iter().rev().find(|c| c.0 <= t1 && c.0 + 40_000_000 >= t0).map(|c| c.1).unwrap_or("none")
+    };
+    for d in &dec {
+        let t_first = pulse_start(d.first_pulse);
+        // a block belongs to the tape position in force when its sync starts: a rewind during the
+        // leader only restarts the leader
+        let sync_idx = (d.first_pulse + d.pilot as usize).min(pulses.len());
+        let t_start = pulse_start(sync_idx).max(t_first);
+        let t_end = if d.end_pulse < pulse_end.len() { pulse_end[d.end_pulse] } else { play_time };
+        let mut pilot_clean = d.pilot;
+        while ri < resets.len() && resets[ri].0 <= t_start {
+            if resets[ri].0 > t_first {
+                // leader pulses that started after this reset
+                pilot_clean = (d.first_pulse..sync_idx).filter(|&i| pulse_start(i) >= resets[ri].0).count() as u64;
+            }
+            if resets[ri].1 == "end" && expect != blocks.len() {
+                return Err(Fail::new(
+                    "C12.spontaneous_stop",
+                    &format!("cause={}", cause_for(0, resets[ri].0)),
+                    format!("deck stopped by itself at play time {} after {} of {} blocks", resets[ri].0, expect, blocks.len()),
+                ));
+            }
+            expect = 0;
+            ri += 1;
+        }
+        // reset inside the block: exempt
+        if ri < resets.len() && resets[ri].0 <= t_end && resets[ri].1 == "rewind" {
+            continue;
+        }
+        match d.end {
+            BlockEnd::Cut if disc.contains(&d.end_pulse) => {
+                // cut by the rewind itself
+            }
+            BlockEnd::Cut => {
+                return Err(Fail::new(
+                    "C12.block_cut",
+                    &format!("cause={}", cause_for(t_start, t_end)),
+                    format!(
+                        "block {} was cut after {} bytes by a pulse of {} T at play time {} (no rewind in between); expected {} bytes",
+                        expect,
+                        d.bytes.len(),
+                        d.bad_len,
+                        t_end,
+                        blocks.get(expect).map(|b| b.len()).unwrap_or(0)
+                    ),
+                ));
+            }
+            BlockEnd::StreamEnd => {
+                let exp = blocks.get(expect);
+                let ok = match exp {
+                    Some(e) => e.len() >= d.bytes.len() && e[..d.bytes.len()] == d.bytes[..],
+                    None => false,
+                };
+                if !ok {
+                    return Err(Fail::new(
+                        "C12.block_sequence",
+                        &format!("cause={}", cause_for(t_start, t_end)),
+                        format!("in-progress block {} carries bytes that are not a prefix of the tape's block (got {} bytes)", expect, d.bytes.len()),
+                    ));
+                }
+                // the last block before the deck ran off the end is followed by silence only
+                if exp.map(|e| e.len()) == Some(d.bytes.len()) {
+                    expect += 1;
+                    ctx.probe("block_decoded");
+                }
+            }
+            BlockEnd::Pause => {
+                let exp = blocks.get(expect);
+                if exp.map(|e| e[..] == d.bytes[..]) != Some(true) {
+                    return Err(Fail::new(
+                        "C12.block_sequence",
+                        &format!("cause={}", cause_for(t_start, t_end)),
+                        format!(
+                            "decoded block #{} since the last rewind/end has {} bytes {:02x?}..., tape block has {} bytes",
+                            expect,
+                            d.bytes.len(),
+                            &d.bytes[..d.bytes.len().min(4)],
+                            exp.map(|e| e.len()).unwrap_or(0)
+                        ),
+                    ));
+                }
+                let nom = tape::pilot_count(&d.bytes);
+                let bad_pilot = if nom == tape::PILOT_HEADER && pilot_clean == d.pilot { d.pilot + 1 < nom || d.pilot > nom } else { pilot_clean + 1 < nom };
+                if bad_pilot {
+                    return Err(Fail::new(
+                        "C12.pilot",
+                        &format!("cause={}", cause_for(t_start, t_end)),
+                        format!("block {} has a pilot of {} pulses ({} since the last rewind/end), nominal {}", expect, d.pilot, pilot_clean, nom),
+                    ));
+                }
+                if d.pause_len < PAUSE_MIN || d.pause_len > PAUSE_MAX {
+                    // a long pulse that ends the run (deck stopped at the end) may be shorter: only
+                    // judge pauses that were terminated by a real edge
+                    if d.end_pulse < pulses.len() {
+                        return Err(Fail::new("C12.pause", "", format!("pause after block {} lasted {} T", expect, d.pause_len)));
+                    }
+                }
+                expect += 1;
+                ctx.probe("block_decoded");
+            }
+        }
+    }
+    while ri < resets.len() {
+        if resets[ri].1 == "end" && expect != blocks.len() {
+            return Err(Fail::new(
+                "C12.spontaneous_stop",
+                &format!("cause={}", cause_for(0, resets[ri].0)),
+                format!("deck stopped by itself at play time {} after {} of {} blocks", resets[ri].0, expect, blocks.len()),
+            ));
+        }
+        expect = 0;
+        ri += 1;
+    }
+    // liveness: while playing, silence never exceeds a pause
+    for (i, &p) in pulses.iter().enumerate() {
+        if p > PAUSE_MAX {
+            return Err(Fail::new("C12.no_progress", "", format!("no edge for {} T of playing time (pulse #{})", p, i)));
+        }
+    }
+    if playing && play_time - last_edge > PAUSE_MAX {
+        return Err(Fail::new("C12.no_progress", "", format!("deck playing but silent for {} T at the end of the run", play_time - last_edge)));
+    }
+    Ok(())
+}
+
+impl C12 {
+    /// System level: the same command histories through `Emulator::play_tape / stop_tape / rewind_tape`,
+    /// the EAR level observed through the ULA port (every port read takes 4..10 T of emulated time,
+    /// which is also what advances the tape), histories kept inside the tape's duration.
+    fn exec_system(&self, sc: &Scenario, ctx: &mut RunCtx) -> Result<(), Fail> {
+        use crate::machine::*;
+        use rustzx_z80::Z80Bus;
+        let img = sc.ops.iter().find(|o| o.k == "tape").map(|o| o.b.clone()).unwrap_or_default();
+        let (blocks, tail) = tape::tap_blocks(&img);
+        if tail.is_some() || blocks.iter().any(|b| b.is_empty()) || blocks.is_empty() {
+            return Ok(());
+        }
+        let m128 = sc.get("m128") != 0;
+        let cfg = MCfg { m128, sound: false, ..Default::default() };
+        let mut e = new_emu(&cfg);
+        let plan = AssetPlan { max_chunk: sc.get("chunk").max(0) as usize, ..Default::default() };
+        e.load_tape(rustzx_core::host::Tape::Tap(crate::host::AnyAsset::Sim(SimAsset::new(img.clone(), plan).0))).map_err(|x| Fail::new("C12.load", "", format!("{:?}", x)))?;
+        let f = cfg.frame_len() as u64;
+        let port = 0xBFFEu16;
+        let mut o = Observed { pulses: vec![], pulse_end: vec![], resets: vec![], disc: vec![], cause_log: vec![], play_time: 0, last_edge: 0, playing: false, tol: (12, tape::TOL + 12) };
+        let mut level = (e.verif_bus().read_io(port) >> 6) & 1;
+        let total: u64 = blocks.iter().map(|b| tape::block_duration(b) + 3_500_000).sum::<u64>();
+        for op in &sc.ops {
+            match op.k.as_str() {
+                "play" => {
+                    e.play_tape();
+                    o.playing = true;
+                    ctx.fault("deck_play@phase");
+                }
+                "stop" => {
+                    e.stop_tape();
+                    o.playing = false;
+                    ctx.fault("deck_stop@phase");
+                }
+                "rewind" => {
+                    if e.rewind_tape().is_err() {
+                        return Err(Fail::new("C12.rewind_err", "system=1", "rewind_tape failed on a healthy asset".into()));
+                    }
+                    ctx.fault("deck_rewind@phase");
+                    if o.playing {
+                        o.pulses.push(o.play_time - o.last_edge);
+                        o.pulse_end.push(o.play_time);
+                        o.disc.push(o.pulses.len() - 1);
+                        o.last_edge = o.play_time;
+                    }
+                    o.disc.push(o.pulses.len());
+                    o.resets.push((o.play_time, "rewind"));
+                    level = (e.verif_bus().read_io(port) >> 6) & 1;
+                }
+                "adv" => {
+                    let mut left = op.arg(0).max(0) as u64;
+                    // stay inside the tape: running off the end cannot be observed at this level
+                    if o.playing && o.play_time + left + 4_000_000 > total {
+                        left = (total.saturating_sub(o.play_time + 4_000_000)).min(left);
+                    }
+                    while left > 0 {
+                        let before = e.verif_frame_clocks() as u64;
+                        let v = (e.verif_bus().read_io(port) >> 6) & 1;
+                        let after = e.verif_frame_clocks() as u64;
+                        let dt = if after >= before { after - before } else { after + f - before };
+                        left = left.saturating_sub(dt);
+                        ctx.sim_t += dt;
+                        if o.playing {
+                            o.play_time += dt;
+                            if v != level {
+                                o.pulses.push(o.play_time - o.last_edge);
+                                o.pulse_end.push(o.play_time);
+                                o.last_edge = o.play_time;
+                                level = v;
+                            }
+                        } else if v != level {
+                            return Err(Fail::new("C12.edge_while_stopped", "system=1", format!("EAR bit of the ULA port changed while the deck was stopped (play time {})", o.play_time)));
+                        }
+                    }
+                    ctx.units += 1;
+                }
+                _ => {}
+            }
+        }
+        ctx.probe("system_history");
+        evaluate(&o, &blocks, ctx)
+    }
+}
+
 impl Property for C12 {
     fn id(&self) -> &'static str {
         "C12"
@@ -91,13 +338,15 @@ impl Property for C12 {
         ]
     }
     fn expected_probes(&self) -> Vec<&'static str> {
-        vec!["stop_mid_pilot", "stop_mid_byte", "stop_in_pause", "stop_while_stopped", "play_after_end", "rewind_while_playing", "rewind_while_stopped", "ran_off_end", "stop_at_refill"]
+        vec!["stop_mid_pilot", "stop_mid_byte", "stop_in_pause", "stop_while_stopped", "play_after_end", "rewind_while_playing", "rewind_while_stopped", "ran_off_end", "stop_at_refill", "system_history"]
     }
 
     fn gen(&self, rng: &mut Rng, _tier: Tier, idx: u64) -> Scenario {
         let mut sc = Scenario::new();
         let avoid_known = idx % 4 == 3;
         sc.set("avoid_known", avoid_known as i64);
+        sc.set("system", (idx % 10 == 9) as i64);
+        sc.set("m128", rng.bool() as i64);
         let blocks = gen_tape(rng, 3, 302);
         let img = tape::make_tap(&blocks);
         let chunk = *rng.pick(&[0i64, 1, 2, 3, 7, 64, 128, 129]);
@@ -211,6 +460,9 @@ impl Property for C12 {
     }
 
     fn exec(&self, sc: &Scenario, ctx: &mut RunCtx) -> Result<(), Fail> {
+        if sc.get("system") != 0 {
+            return self.exec_system(sc, ctx);
+        }
         let img = sc.ops.iter().find(|o| o.k == "tape").map(|o| o.b.clone()).unwrap_or_default();
         let (blocks, tail) = tape::tap_blocks(&img);
         if tail.is_some() || blocks.iter().any(|b| b.is_empty()) || (img.len() % 2 == 1 && blocks.is_empty()) {
@@ -391,147 +643,7 @@ impl Property for C12 {
             // no tape consumed while stopped: checked per op below
         }
         ctx.fault_n("short_read", stats.borrow().short_reads);
-        // ---- evaluate the decoded blocks
-        let dec = tape::decode(&pulses);
-        if std::env::var("VERIF_DEBUG").is_ok() {
-            for d in &dec {
-                eprintln!("decoded: {} bytes pilot={} first={} endp={} end={:?} bad={} pause={}", d.bytes.len(), d.pilot, d.first_pulse, d.end_pulse, d.end, d.bad_len, d.pause_len);
-            }
-            eprintln!("resets: {:?} pulses={} play_time={}", resets, pulses.len(), play_time);
-        }
-        let pulse_start = |i: usize| -> u64 {
-            if i == 0 {
-                0
-            } else {
-                pulse_end[i - 1]
-            }
-        };
-        let mut expect = 0usize;
-        let mut ri = 0usize;
-        let cause_for = |t0: u64, t1: u64| -> &'static str {
-            // most recent logged pattern before the end of the block
-            cause_log.iter().rev().find(|c| c.0 <= t1 && c.0 + 40_000_000 >= t0).map(|c| c.1).unwrap_or("none")
-        };
-        for d in &dec {
-            let t_first = pulse_start(d.first_pulse);
-            // a block belongs to the tape position in force when its sync starts: a rewind during the
-            // leader only restarts the leader
-            let sync_idx = (d.first_pulse + d.pilot as usize).min(pulses.len());
-            let t_start = pulse_start(sync_idx).max(t_first);
-            let t_end = if d.end_pulse < pulse_end.len() { pulse_end[d.end_pulse] } else { play_time };
-            let mut pilot_clean = d.pilot;
-            while ri < resets.len() && resets[ri].0 <= t_start {
-                if resets[ri].0 > t_first {
-                    // leader pulses that started after this reset
-                    pilot_clean = (d.first_pulse..sync_idx).filter(|&i| pulse_start(i) >= resets[ri].0).count() as u64;
-                }
-                if resets[ri].1 == "end" && expect != blocks.len() {
-                    return Err(Fail::new(
-                        "C12.spontaneous_stop",
-                        &format!("cause={}", cause_for(0, resets[ri].0)),
-                        format!("deck stopped by itself at play time {} after {} of {} blocks", resets[ri].0, expect, blocks.len()),
-                    ));
-                }
-                expect = 0;
-                ri += 1;
-            }
-            // reset inside the block: exempt
-            if ri < resets.len() && resets[ri].0 <= t_end && resets[ri].1 == "rewind" {
-                continue;
-            }
-            match d.end {
-                BlockEnd::Cut if disc.contains(&d.end_pulse) => {
-                    // cut by the rewind itself
-                }
-                BlockEnd::Cut => {
-                    return Err(Fail::new(
-                        "C12.block_cut",
-                        &format!("cause={}", cause_for(t_start, t_end)),
-                        format!(
-                            "block {} was cut after {} bytes by a pulse of {} T at play time {} (no rewind in between); expected {} bytes",
-                            expect,
-                            d.bytes.len(),
-                            d.bad_len,
-                            t_end,
-                            blocks.get(expect).map(|b| b.len()).unwrap_or(0)
-                        ),
-                    ));
-                }
-                BlockEnd::StreamEnd => {
-                    let exp = blocks.get(expect);
-                    let ok = match exp {
-                        Some(e) => e.len() >= d.bytes.len() && e[..d.bytes.len()] == d.bytes[..],
-                        None => false,
-                    };
-                    if !ok {
-                        return Err(Fail::new(
-                            "C12.block_sequence",
-                            &format!("cause={}", cause_for(t_start, t_end)),
-                            format!("in-progress block {} carries bytes that are not a prefix of the tape's block (got {} bytes)", expect, d.bytes.len()),
-                        ));
-                    }
-                    // the last block before the deck ran off the end is followed by silence only
-                    if exp.map(|e| e.len()) == Some(d.bytes.len()) {
-                        expect += 1;
-                        ctx.probe("block_decoded");
-                    }
-                }
-                BlockEnd::Pause => {
-                    let exp = blocks.get(expect);
-                    if exp.map(|e| e[..] == d.bytes[..]) != Some(true) {
-                        return Err(Fail::new(
-                            "C12.block_sequence",
-                            &format!("cause={}", cause_for(t_start, t_end)),
-                            format!(
-                                "decoded block #{} since the last rewind/end has {} bytes {:02x?}..., tape block has {} bytes",
-                                expect,
-                                d.bytes.len(),
-                                &d.bytes[..d.bytes.len().min(4)],
-                                exp.map(|e| e.len()).unwrap_or(0)
-                            ),
-                        ));
-                    }
-                    let nom = tape::pilot_count(&d.bytes);
-                    let bad_pilot = if nom == tape::PILOT_HEADER && pilot_clean == d.pilot { d.pilot + 1 < nom || d.pilot > nom } else { pilot_clean + 1 < nom };
-                    if bad_pilot {
-                        return Err(Fail::new(
-                            "C12.pilot",
-                            &format!("cause={}", cause_for(t_start, t_end)),
-                            format!("block {} has a pilot of {} pulses ({} since the last rewind/end), nominal {}", expect, d.pilot, pilot_clean, nom),
-                        ));
-                    }
-                    if d.pause_len < PAUSE_MIN || d.pause_len > PAUSE_MAX {
-                        // a long pulse that ends the run (deck stopped at the end) may be shorter: only
-                        // judge pauses that were terminated by a real edge
-                        if d.end_pulse < pulses.len() {
-                            return Err(Fail::new("C12.pause", "", format!("pause after block {} lasted {} T", expect, d.pause_len)));
-                        }
-                    }
-                    expect += 1;
-                    ctx.probe("block_decoded");
-                }
-            }
-        }
-        while ri < resets.len() {
-            if resets[ri].1 == "end" && expect != blocks.len() {
-                return Err(Fail::new(
-                    "C12.spontaneous_stop",
-                    &format!("cause={}", cause_for(0, resets[ri].0)),
-                    format!("deck stopped by itself at play time {} after {} of {} blocks", resets[ri].0, expect, blocks.len()),
-                ));
-            }
-            expect = 0;
-            ri += 1;
-        }
-        // liveness: while playing, silence never exceeds a pause
-        for (i, &p) in pulses.iter().enumerate() {
-            if p > PAUSE_MAX {
-                return Err(Fail::new("C12.no_progress", "", format!("no edge for {} T of playing time (pulse #{})", p, i)));
-            }
-        }
-        if playing && play_time - last_edge > PAUSE_MAX {
-            return Err(Fail::new("C12.no_progress", "", format!("deck playing but silent for {} T at the end of the run", play_time - last_edge)));
-        }
-        Ok(())
+        let obs = Observed { pulses, pulse_end, resets, disc, cause_log, play_time, last_edge, playing, tol: (0, tape::TOL) };
+        evaluate(&obs, &blocks, ctx)
     }
 }
